@@ -178,6 +178,20 @@ def generic_check(pid, level, tier, seed, rule, streams, coq=True, checker_cmd=N
 
 
 def generic_replay(pid, path):
+    """Replays a violation file: prints it, re-runs the property's check with the recorded tier and seed
+    (every stream derives its inputs from the seed) and reports whether the same violation (same kind and
+    input, hence the same file name) shows again.  Exit 1 = reproduced, 0 = not reproduced (fixed code or a
+    timing-dependent violation)."""
+    import subprocess, sys
     v = json.load(open(path))
-    print(json.dumps(v, indent=1))
-    return 0
+    print(json.dumps(v, indent=1)[:4000])
+    name = os.path.basename(path)
+    env = dict(os.environ, VERIF_SEED=str(v.get("seed", 1)), VERIF_NO_COQCHK="1")
+    p = subprocess.run([sys.executable, os.path.join(C.VERIF, "bin", "verif"), "check", pid, "--tier", v.get("tier", "quick")],
+                       capture_output=True, text=True, env=env)
+    lines = [l for l in p.stdout.splitlines() if l.startswith("VIOLATION") or l.startswith("KNOWN-FINDING")]
+    again = any(name in l for l in lines)
+    print("replay: %s (%d violation lines in the re-run)" % ("REPRODUCED" if again else "not reproduced", len([l for l in lines if l.startswith("VIOLATION")])))
+    for l in lines[:10]:
+        print("  " + l)
+    return 1 if again else 0
